@@ -904,14 +904,18 @@ class Repo:
     def _resolve_procedure(self, fi, call):
         f = call.func
         target = recv = None
-        if isinstance(f, ast.Attribute) and isinstance(f.value, ast.Name) and f.value.id in ("self", "cls"):
+        if isinstance(f, ast.Attribute) and isinstance(f.value, ast.Name):
             cands = []
-            if fi.cls is not None:
+            if fi.cls is not None and f.value.id in ("self", "cls"):
                 m = self.resolve_method(fi.cls.qual, f.attr)
                 if m is not None:
                     cands = [m]
             if not cands:
+                # any receiver name (`field._diff_lines(...)` on a local that holds another Field): a helper the rules do not
+                # know, identified by a method name that exists once in the package
                 cands = [ci.methods[f.attr] for ci in self.classes.values() if f.attr in ci.methods]
+                if f.value.id not in ("self", "cls"):
+                    cands = [c_ for c_ in cands if self.is_new_function(c_.qual)]
             if len(cands) == 1 and cands[0].kind in ("method", "classmethod"):
                 target, recv = cands[0], f.value
             elif len(cands) == 1 and cands[0].kind == "staticmethod":
